@@ -602,12 +602,17 @@ impl Session {
                     let at = w.sends + n.parse::<usize>().unwrap();
                     w.faults.fail_send_at = Some(at);
                 }
+                ["timeout_send", n] => {
+                    let at = w.sends + n.parse::<usize>().unwrap();
+                    w.faults.timeout_send_at = Some(at);
+                }
                 ["fail_recv", n] => {
                     let at = w.recvs + n.parse::<usize>().unwrap();
                     w.faults.fail_recv_at = Some(at);
                 }
                 ["clear_faults"] => {
                     w.faults.fail_send_at = None;
+                    w.faults.timeout_send_at = None;
                     w.faults.fail_recv_at = None;
                     w.faults.timeout_recv_at = None;
                     w.faults.eof_read_at = None;
